@@ -1726,6 +1726,13 @@ func (t *trans) walkLoop(list []ast.Stmt, lc *loopCtx) interface{} {
 		return t.walkLoop(rest, lc)
 	case *ast.BlockStmt:
 		return t.walkLoop(append(append([]ast.Stmt{}, s.List...), rest...), lc)
+	case *ast.ForStmt, *ast.RangeStmt:
+		// a scan of the octets of the string element: for i := K; i < len(x); i++ { if x[i] OP c { … } }, or
+		// for _, r := range x { if r > unicode.MaxASCII { … } } (a rune above 127 is decoded exactly when an octet above 127 occurs)
+		bp, inner := t.byteScan(list[0])
+		th := t.walkLoop(inner, lc)
+		el := t.walkLoop(rest, lc)
+		return T{"pOr", T{"pAnd", bp, th}, T{"pAnd", T{"pNot", bp}, el}}
 	case *ast.IfStmt:
 		saved := t.snapshot()
 		if s.Init != nil {
@@ -1772,6 +1779,106 @@ func (t *trans) walkLoop(list []ast.Stmt, lc *loopCtx) interface{} {
 	}
 	unsupported("loop body shape")
 	return nil
+}
+
+// byteScan recognises the two octet-scanning loop shapes over a string value and returns the element predicate "some octet
+// from index K on satisfies OP c" together with the statements executed at the first such octet
+func (t *trans) byteScan(st ast.Stmt) (interface{}, []ast.Stmt) {
+	oneIf := func(body *ast.BlockStmt) *ast.IfStmt {
+		if body == nil || len(body.List) != 1 {
+			unsupported("loop body shape")
+		}
+		is, ok := body.List[0].(*ast.IfStmt)
+		if !ok || is.Init != nil || is.Else != nil || !terminatesIter(is.Body.List) {
+			unsupported("loop body shape")
+		}
+		return is
+	}
+	strVal := func(e ast.Expr) val {
+		v, ok := t.tryValue(e)
+		if !ok || !isStringType(t.typeOf(e)) || !((v.kind == "elem" && v.ek == "str") || (v.kind == "path" && v.path != "")) {
+			unsupported("loop body shape")
+		}
+		return v
+	}
+	wrap := func(v val, p interface{}) interface{} {
+		r, ok := t.strPredOn(v, p)
+		if !ok {
+			unsupported("loop body shape")
+		}
+		if rt := r.(T); !strings.HasPrefix(rt[0].(string), "p") {
+			unsupported("octet scan of a field inside an element loop")
+		}
+		return r
+	}
+	switch s := st.(type) {
+	case *ast.RangeStmt:
+		if s.Tok != token.DEFINE || s.Value == nil {
+			unsupported("loop body shape")
+		}
+		if k, ok := s.Key.(*ast.Ident); !ok || k.Name != "_" {
+			unsupported("loop body shape")
+		}
+		x := strVal(s.X)
+		is := oneIf(s.Body)
+		b, ok := stripParen(is.Cond).(*ast.BinaryExpr)
+		if !ok || b.Op != token.GTR {
+			unsupported("loop body shape")
+		}
+		if id, ok := stripParen(b.X).(*ast.Ident); !ok || t.p.TypesInfo.Uses[id] != t.p.TypesInfo.Defs[s.Value.(*ast.Ident)] {
+			unsupported("loop body shape")
+		}
+		if k, ok := t.constOf(b.Y); !ok || k.kind != "int" || k.i != 127 {
+			unsupported("rune comparison %s", exprString(is.Cond))
+		}
+		return wrap(x, T{"pAnyByte", 0, "gt", 127}), is.Body.List
+	case *ast.ForStmt:
+		init, ok := s.Init.(*ast.AssignStmt)
+		if !ok || init.Tok != token.DEFINE || len(init.Lhs) != 1 || len(init.Rhs) != 1 {
+			unsupported("loop body shape")
+		}
+		iv, ok := init.Lhs[0].(*ast.Ident)
+		k, kok := t.constOf(init.Rhs[0])
+		if !ok || !kok || k.kind != "int" || k.i < 0 {
+			unsupported("loop body shape")
+		}
+		iobj := t.p.TypesInfo.Defs[iv]
+		isI := func(e ast.Expr) bool {
+			id, ok := stripParen(e).(*ast.Ident)
+			return ok && t.p.TypesInfo.Uses[id] == iobj
+		}
+		c, ok := s.Cond.(*ast.BinaryExpr)
+		if !ok || c.Op != token.LSS || !isI(c.X) {
+			unsupported("loop body shape")
+		}
+		lc, ok := c.Y.(*ast.CallExpr)
+		if !ok || len(lc.Args) != 1 {
+			unsupported("loop body shape")
+		}
+		if name, _ := t.calleeName(lc); name != "builtin.len" {
+			unsupported("loop body shape")
+		}
+		x := strVal(lc.Args[0])
+		if inc, ok := s.Post.(*ast.IncDecStmt); !ok || inc.Tok != token.INC || !isI(inc.X) {
+			unsupported("loop body shape")
+		}
+		is := oneIf(s.Body)
+		b, ok := stripParen(is.Cond).(*ast.BinaryExpr)
+		if !ok || cmpName(b.Op) == "" {
+			unsupported("loop body shape")
+		}
+		ix, ok := stripParen(b.X).(*ast.IndexExpr)
+		if !ok || !isI(ix.Index) || exprString(ix.X) != exprString(lc.Args[0]) {
+			unsupported("loop body shape")
+		}
+		bc, ok := t.constOf(b.Y)
+		if !ok || bc.kind != "int" || bc.i < 0 || bc.i > 255 {
+			unsupported("loop body shape")
+		}
+		return wrap(x, T{"pAnyByte", k.i, cmpName(b.Op), bc.i}), is.Body.List
+	}
+	unsupported("loop body shape")
+	return nil, nil
 }
 
 // a condition inside a string loop, as an element predicate
